@@ -130,6 +130,83 @@ MatchL(p, n) ==
     ELSE Head(p) = Head(n) /\ MatchL(Tail(p), Tail(n))
 
 (***************************************************************************)
+(* Match for both OS flavours, with character classes, ranges, negation    *)
+(* and escapes: a pattern is first parsed into tokens (or found            *)
+(* malformed: ErrBadPattern); a well-formed pattern matches a name when    *)
+(* the tokens can be laid over the whole name.  "*" and "?" never match    *)
+(* the separator of the flavour; a class may.  The backslash escapes the   *)
+(* next character on Linux only - on Windows it is the separator and an    *)
+(* ordinary member of a class.                                             *)
+(***************************************************************************)
+Code(c) == CASE c = "*" -> 42 [] c = "-" -> 45 [] c = "." -> 46 [] c = "/" -> 47 [] c = ":" -> 58 [] c = "?" -> 63
+             [] c = "C" -> 67 [] c = "[" -> 91 [] c = "\\" -> 92 [] c = "]" -> 93 [] c = "^" -> 94 [] c = "_" -> 95
+             [] c = "a" -> 97 [] c = "b" -> 98 [] OTHER -> 0
+Escapes(os) == os = "linux"
+MSep(os) == IF os = "windows" THEN "\\" ELSE "/"
+BadEsc == [ok |-> FALSE, ch |-> "", next |-> 0]
+\* one class member starting at position i: the (possibly escaped) character; the class must go on after it
+GetEsc(os, p, i) ==
+    IF i > Len(p) \/ p[i] = "-" \/ p[i] = "]" THEN BadEsc
+    ELSE LET j == IF p[i] = "\\" /\ Escapes(os) THEN i + 1 ELSE i IN
+         IF j + 1 > Len(p) THEN BadEsc ELSE [ok |-> TRUE, ch |-> p[j], next |-> j + 1]
+BadClass == [ok |-> FALSE, ranges |-> <<>>, next |-> 0]
+RECURSIVE ClassRanges(_, _, _, _)
+ClassRanges(os, p, i, acc) ==
+    IF i <= Len(p) /\ p[i] = "]" /\ Len(acc) > 0 THEN [ok |-> TRUE, ranges |-> acc, next |-> i + 1]
+    ELSE LET lo == GetEsc(os, p, i) IN
+         IF ~lo.ok THEN BadClass
+         ELSE IF p[lo.next] = "-"
+              THEN LET hi == GetEsc(os, p, lo.next + 1) IN
+                   IF ~hi.ok THEN BadClass ELSE ClassRanges(os, p, hi.next, Append(acc, <<lo.ch, hi.ch>>))
+              ELSE ClassRanges(os, p, lo.next, Append(acc, <<lo.ch, lo.ch>>))
+Tk(k, c, neg, ranges) == [k |-> k, c |-> c, neg |-> neg, ranges |-> ranges]
+\* the token sequence of a pattern; a malformed construct yields the token "bad", after which nothing is read
+RECURSIVE Toks(_, _, _)
+Toks(os, p, i) ==
+    IF i > Len(p) THEN <<>>
+    ELSE LET c == p[i]
+             bad == <<Tk("bad", "", FALSE, <<>>)>> IN
+         IF c = "*" THEN <<Tk("star", "", FALSE, <<>>)>> \o Toks(os, p, i + 1)
+         ELSE IF c = "?" THEN <<Tk("any", "", FALSE, <<>>)>> \o Toks(os, p, i + 1)
+         ELSE IF c = "[" THEN
+              LET neg == i + 1 <= Len(p) /\ p[i + 1] = "^"
+                  cr == ClassRanges(os, p, IF neg THEN i + 2 ELSE i + 1, <<>>) IN
+              IF ~cr.ok THEN bad ELSE <<Tk("class", "", neg, cr.ranges)>> \o Toks(os, p, cr.next)
+         ELSE IF c = "\\" /\ Escapes(os) THEN
+              (IF i + 1 > Len(p) THEN bad ELSE <<Tk("lit", p[i + 1], FALSE, <<>>)>> \o Toks(os, p, i + 2))
+         ELSE <<Tk("lit", c, FALSE, <<>>)>> \o Toks(os, p, i + 1)
+InRanges(rs, c) == \E k \in DOMAIN rs : Code(rs[k][1]) <= Code(c) /\ Code(c) <= Code(rs[k][2])
+
+\* filepath.Match works chunk by chunk - a chunk is a maximal run of tokens without "*", preceded or not by
+\* stars - takes the FIRST place where a chunk fits, never comes back on that choice, and reports a malformed
+\* chunk only when it gets that far (package path checks the whole pattern, path/filepath does not).
+RECURSIVE Chunks(_, _, _)
+Chunks(ts, star, acc) ==        \* acc: tokens of the chunk being collected
+    IF ts = <<>> THEN (IF acc = <<>> /\ ~star THEN <<>> ELSE <<[star |-> star, toks |-> acc]>>)
+    ELSE IF Head(ts).k = "star" THEN
+         (IF acc = <<>> THEN Chunks(Tail(ts), TRUE, <<>>)
+          ELSE <<[star |-> star, toks |-> acc]>> \o Chunks(Tail(ts), TRUE, <<>>))
+    ELSE Chunks(Tail(ts), star, Append(acc, Head(ts)))
+TokFits(os, t, c) == CASE t.k = "any" -> c # MSep(os)
+                       [] t.k = "lit" -> c = t.c
+                       [] OTHER -> InRanges(t.ranges, c) # t.neg
+\* the chunk fits the name at offset k (0-based) and leaves SubSeq(n, k + Len(toks) + 1, Len(n))
+FitsAt(os, toks, n, k) == k + Len(toks) <= Len(n) /\ \A i \in DOMAIN toks : TokFits(os, toks[i], n[k + i])
+RECURSIVE RunChunks(_, _, _)
+RunChunks(os, cs, n) ==
+    IF cs = <<>> THEN (IF n = <<>> THEN "true" ELSE "false")
+    ELSE LET ch == Head(cs)   last == Tail(cs) = <<>> IN
+         IF ch.star /\ ch.toks = <<>> THEN (IF \E i \in DOMAIN n : n[i] = MSep(os) THEN "false" ELSE "true")
+         ELSE IF \E i \in DOMAIN ch.toks : ch.toks[i].k = "bad" THEN "ERR"
+         ELSE LET shifts == {k \in 0..Len(n) : (k = 0 \/ ch.star) /\ \A i \in 1..k : n[i] # MSep(os)}
+                  good == {k \in shifts : FitsAt(os, ch.toks, n, k) /\ ~(last /\ k + Len(ch.toks) < Len(n))} IN
+              IF good = {} THEN "false"
+              ELSE LET k == CHOOSE x \in good : \A y \in good : x <= y IN
+                   RunChunks(os, Tail(cs), SubSeq(n, k + Len(ch.toks) + 1, Len(n)))
+\* "true" | "false" | "ERR"
+Match(os, p, n) == RunChunks(os, Chunks(Toks(os, p, 1), FALSE, <<>>), n)
+
+(***************************************************************************)
 (* PathIterator over a clean absolute Linux path: the parts in order, with *)
 (* Left + Part + Right reassembling the path.                              *)
 (***************************************************************************)
